@@ -115,6 +115,32 @@ impl<'de, K: Deserialize<'de> + Ord + Clone + Default, V: Deserialize<'de> + Clo
     }
 }
 
+/// a `VecDeque` whose ring buffer has WRAPPED (built by pushes at both ends, the way `Deserialize` / `collect` never build one):
+/// the same sequence, whichever way the storage is laid out
+#[derive(Debug, PartialEq)]
+pub struct Wrapped<T>(pub std::collections::VecDeque<T>);
+
+impl<T: Serialize> Serialize for Wrapped<T> {
+    fn serialize<S: serde::Serializer>(&self, s: S) -> Result<S::Ok, S::Error> { self.0.serialize(s) }
+}
+impl<'de, T: Deserialize<'de>> Deserialize<'de> for Wrapped<T> {
+    fn deserialize<D: serde::Deserializer<'de>>(d: D) -> Result<Self, D::Error> {
+        let v = Vec::<T>::deserialize(d)?;
+        let n = v.len();
+        let mut q = std::collections::VecDeque::with_capacity(n.max(2));
+        let mut front = Vec::new();
+        for (i, x) in v.into_iter().enumerate() { if i < n / 2 { front.push(x) } else { q.push_back(x) } }
+        for x in front.into_iter().rev() { q.push_front(x) }
+        Ok(Wrapped(q))
+    }
+}
+impl<C, T: minicbor::Encode<C>> minicbor::Encode<C> for Wrapped<T> {
+    fn encode<W: minicbor::encode::Write>(&self, e: &mut minicbor::Encoder<W>, ctx: &mut C) -> Result<(), minicbor::encode::Error<W::Error>> { self.0.encode(e, ctx) }
+}
+impl<'b, C, T: minicbor::Decode<'b, C>> minicbor::Decode<'b, C> for Wrapped<T> {
+    fn decode(d: &mut minicbor::Decoder<'b>, ctx: &mut C) -> Result<Self, minicbor::decode::Error> { Ok(Wrapped(std::collections::VecDeque::decode(d, ctx)?)) }
+}
+
 /// map of unknown length: `serialize_map(None)`
 #[derive(Debug, PartialEq)]
 pub struct UnkMap<K, V>(pub BTreeMap<K, V>);
